@@ -1,3 +1,4 @@
+import RactorModel.Lemmas.GenRouting
 import RactorModel.Lemmas.FactoryRouters
 import RactorModel.Lemmas.FactoryAffinity
 import RactorModel.Lemmas.FactoryQueuer
@@ -601,6 +602,116 @@ example : rrSeq 3 3 7 = [0, 1, 2] := by decide
 example : rrSeq 4 4 1 = [2, 3, 0, 1] := by decide
 example : chooseCustom (fun _ _ => 2 ^ 64 - 1) 5 3 = 0 := by decide
 
+
+/-! ### Translator tie (rs2lean): kernel-checked equivalence between the definitions that
+`extract/rs2lean.py` regenerates from the CURRENT Rust source on every run
+(`RactorModel/Generated/*.lean`) and the hand-written model functions the theorems above are
+about. A semantic change of the Rust function changes the generated text and these stop checking. -/
+
+section XlateTie
+open Generated.Routing GenRouting
+
+theorem generated_hash_with_max_eq_model (sip : Option Nat → Nat) (h : Nat → Nat → Nat) (key n : Nat) :
+    hash_with_max sip h key n = sip (some key) % n := rfl
+
+/-- key-persistent router: pending-key worker (first in pool order), else a valid hint, else
+`hash % pool_size`; `sip (some key)` is the job's `DefaultHasher` value. The router has no state. -/
+theorem generated_key_persistent_choice_eq_model (sip : Option Nat → Nat) (h : Nat → Nat → Nat)
+    (w : Factory.W) (j : Factory.Job) (hint : Option Nat)
+    (hr : w.cfg.router = .kp) (hh : sip (some j.key) = j.hash) :
+    (KeyPersistentRouting.choose_target_worker sip h ⟨⟩ j w.poolSize hint w.pool).2
+      = (w.chooseTargetWorker j hint).1 ∧ (w.chooseTargetWorker j hint).2 = w := by
+  unfold KeyPersistentRouting.choose_target_worker Factory.W.chooseTargetWorker
+  simp only [hr, hash_with_max, hh, findSome_pairs' w.pool (fun x => x.hasPendingKey j.key)]
+  cases hp : w.pool.find? (fun x => x.hasPendingKey j.key) with
+  | some p => simp
+  | none =>
+    simp only [Option.map_none]
+    cases hf : Option.filter (fun x => Factory.hasW w.pool x) hint with
+    | some x =>
+      have hx : Factory.hasW w.pool x = true := by
+        have := Option.filter_eq_some_iff.mp hf
+        exact this.2
+      simp [hx]
+    | none =>
+      by_cases h0 : w.poolSize = 0 <;> simp [h0]
+
+/-- round-robin router: next slot after `last_worker` (wrapping at `pool_size`), stored back. -/
+theorem generated_round_robin_choice_eq_model (sip : Option Nat → Nat) (h : Nat → Nat → Nat)
+    (w : Factory.W) (j : Factory.Job) (hint : Option Nat)
+    (hr : w.cfg.router = .rr) (hl : w.last + 1 < 2 ^ 64) :
+    let r := RoundRobinRouting.choose_target_worker sip h ⟨w.last⟩ j w.poolSize hint w.pool
+    (r.2, r.1.last_worker) = ((w.chooseTargetWorker j hint).1, (w.chooseTargetWorker j hint).2.last) := by
+  have hadd : Rust.wAdd 64 w.last 1 = w.last + 1 := by unfold Rust.wAdd; omega
+  unfold RoundRobinRouting.choose_target_worker Factory.W.chooseTargetWorker
+  simp only [hr, hintAvailable_eq, hadd, Factory.rrNext]
+  by_cases h0 : w.poolSize = 0
+  · simp [h0]
+  · cases hb : Option.bind hint (fun x => Factory.getW w.pool x) with
+    | none => simp [h0]
+    | some p =>
+      cases ha : p.isAvailable
+      · simp [h0, ha]
+      · simp [h0, ha]
+
+/-- custom router: `hasher.hash(key, pool_size) % pool_size`. The router has no state. -/
+theorem generated_custom_choice_eq_model (sip : Option Nat → Nat)
+    (w : Factory.W) (j : Factory.Job) (hint : Option Nat) (hr : w.cfg.router = .cu) :
+    (CustomRouting.choose_target_worker sip (Factory.customHash w.cfg.table) ⟨()⟩ j w.poolSize hint w.pool).2
+      = (w.chooseTargetWorker j hint).1 ∧ (w.chooseTargetWorker j hint).2 = w := by
+  unfold CustomRouting.choose_target_worker Factory.W.chooseTargetWorker
+  simp only [hr, Factory.chooseCustom]
+  by_cases h0 : w.poolSize = 0
+  · simp [h0]
+  · simp only [h0, decide_false, Bool.false_eq_true, ↓reduceIte, beq_iff_eq, and_true]
+    first | rfl | (split <;> simp_all)
+end XlateTie
+
+section XlateTieQ
+open Generated.Routing GenRouting
+
+/-- queuer router: the early-return prefix (an available hinted worker) is the model's; when the
+prefix falls through the model continues with `popAvail` (the `while let` loop, not translated). -/
+theorem generated_queuer_prefix_eq_model (sip : Option Nat → Nat) (h : Nat → Nat → Nat)
+    (w : Factory.W) (j : Factory.Job) (hint : Option Nat) (hr : w.cfg.router = .q) :
+    w.chooseTargetWorker j hint =
+      match QueuerRouting.choose_before_deque sip h ⟨⟩ j w.poolSize hint w.pool with
+      | some r => (r, w)
+      | none =>
+        let (r, avail, inQ) := Factory.popAvail w.pool w.avail w.inQ
+        (r, { w with avail := avail, inQ := inQ }) := by
+  unfold QueuerRouting.choose_before_deque Factory.W.chooseTargetWorker
+  simp only [hr, hintAvailable_eq]
+  cases hb : Option.bind hint (fun x => Factory.getW w.pool x) with
+  | none => simp
+  | some p => cases ha : p.isAvailable <;> simp [ha]
+
+/-- sticky queuer router: hinted worker processing the key, else any worker processing the key
+(first in pool order), else an available hinted worker, else the deque loop (`popAvail`). -/
+theorem generated_sticky_queuer_prefix_eq_model (sip : Option Nat → Nat) (h : Nat → Nat → Nat)
+    (w : Factory.W) (j : Factory.Job) (hint : Option Nat) (hr : w.cfg.router = .sq) :
+    w.chooseTargetWorker j hint =
+      match StickyQueuerRouting.choose_before_deque sip h ⟨⟩ j w.poolSize hint w.pool with
+      | some r => (r, w)
+      | none =>
+        let (r, avail, inQ) := Factory.popAvail w.pool w.avail w.inQ
+        (r, { w with avail := avail, inQ := inQ }) := by
+  unfold StickyQueuerRouting.choose_before_deque Factory.W.chooseTargetWorker
+  simp only [hr, hintAvailable_eq, hintProcessing_eq]
+  have hfind := find_pairs w.pool (fun x => x.isProcessingKey j.key)
+  cases hb : Option.bind hint (fun x => Factory.getW w.pool x) with
+  | none =>
+    simp only [hfind]
+    cases hf : w.pool.find? (fun x => x.isProcessingKey j.key) <;> simp
+  | some p =>
+    cases hp : p.isProcessingKey j.key
+    · simp only [hfind, hp]
+      cases hf : w.pool.find? (fun x => x.isProcessingKey j.key)
+      · by_cases ha : p.isAvailable = true <;> simp [ha]
+      · simp
+    · simp [hp]
+end XlateTieQ
+
 end C14
 
 #print axioms C14.custom_in_range
@@ -636,3 +747,10 @@ end C14
 #print axioms C14.kp_jobs_start_in_submission_order_partial
 #print axioms C14.busy_worker_starts_nothing
 #print axioms C14.cast_to_busy_queues
+-- rs2lean tie
+#print axioms C14.generated_hash_with_max_eq_model
+#print axioms C14.generated_key_persistent_choice_eq_model
+#print axioms C14.generated_round_robin_choice_eq_model
+#print axioms C14.generated_custom_choice_eq_model
+#print axioms C14.generated_queuer_prefix_eq_model
+#print axioms C14.generated_sticky_queuer_prefix_eq_model
